@@ -162,7 +162,7 @@ func FormatRules(p *load.Program, tb *kinds.Table, pres *FieldPresence, pf *Prin
 				if n == 0 {
 					tied := false
 					for g := range pres.CoSet[k.Name+"."+f.Name] {
-						if facts.isNil[g] || facts.empty[g] {
+						if tiedAbsent(pres, facts.isNil, facts.empty, k.Name+"."+f.Name, g) {
 							tied = true // the grammars never set this child without g, which is absent on this path
 						}
 					}
@@ -203,7 +203,7 @@ func FormatRules(p *load.Program, tb *kinds.Table, pres *FieldPresence, pf *Prin
 						// absent together with a child or list that is known to be absent on this path?
 						tied := false
 						for g := range pres.CoSet[k.Name+"."+f.Name] {
-							if facts.isNil[g] || facts.empty[g] {
+							if tiedAbsent(pres, facts.isNil, facts.empty, k.Name+"."+f.Name, g) {
 								tied = true
 							}
 						}
@@ -239,7 +239,7 @@ func FormatRules(p *load.Program, tb *kinds.Table, pres *FieldPresence, pf *Prin
 					if n == 0 {
 						tied := false
 						for g := range pres.CoSet[k.Name+"."+f.Name] {
-							if facts.isNil[g] || facts.empty[g] {
+							if tiedAbsent(pres, facts.isNil, facts.empty, k.Name+"."+f.Name, g) {
 								tied = true
 							}
 						}
@@ -528,4 +528,19 @@ func (im *Impl) fmtLoop(loop ast.Stmt, recv, n types.Object, evs *[]fmtEvent) st
 // fmtReviewed: token slots whose absence is tied to a property of a child that the path conditions do not express.
 var fmtReviewed = map[string]string{
 	"ExprVariable/DollarTkn": "the grammars set DollarTkn exactly when Name is not an Identifier (T_VARIABLE yields an Identifier holding '$name' and no DollarTkn); the method assigns it on that branch",
+}
+
+
+// tiedAbsent: field g, which the grammars always populate when slot is
+// populated, is known absent on the path. An emptiness test of a list decides
+// absence only if the grammars never leave that list empty next to slot (the
+// "#nonempty" entries of the co-occurrence sets).
+func tiedAbsent(pres *FieldPresence, isNil, empty map[string]bool, slot, g string) bool {
+	if strings.HasSuffix(g, "#nonempty") {
+		return false
+	}
+	if isNil[g] {
+		return true
+	}
+	return empty[g] && pres.CoSet[slot][g+"#nonempty"]
 }
